@@ -32,7 +32,7 @@ BOUND_OPS = ("Gt", "Lt", "Gte", "Lte")
 def closed_model_and_cases(run):
     """Exhaustive check of the closed model; the same run prints the universe and every chain."""
     cfg = "Requirements_MC.cfg" if run.tier == "quick" else "Requirements_MC3.cfg"
-    r = run.tlc("Requirements", cfg, workers=4, heap="4g", timeout=1500, collect_beh=True,
+    r = run.tlc("Requirements", cfg, workers=(4 if run.tier == "quick" else 8), heap="4g", timeout=1500, collect_beh=True,
                 coverage=True)
     run.states += r.distinct
     run.transitions += r.generated
@@ -218,7 +218,7 @@ def pipeline(run, note):
     weak_configs(run)
     t2 = time.time()
     cases = cases_from_chains(chains, run.seed)
-    shards = 8 if run.tier == "quick" else 12
+    shards = 8 if run.tier == "quick" else 16
     run.build_drv()
     t3 = time.time()
     files = record(run, "tlc", universe, cases, [], shards)
